@@ -1081,6 +1081,11 @@ func (c *compiler) evalForExpression(node *ast.ForExpression) (interface{}, erro
 
 	riter := reflect.ValueOf(iter)
 	if riter.Kind() == reflect.Ptr {
+		if riter.IsNil() {
+			// nothing to iterate over, as for nil; Next is not called on a nil pointer
+			return nil, nil
+		}
+
 		riter = riter.Elem()
 	}
 
